@@ -216,9 +216,9 @@ where
             p
         );
 
-        let k = (-p.log2()) as usize;
+        let k = ((-p.log2()) as usize).max(1);
         let ln2 = (2f64).ln();
-        let m = (-((n as f64) * p.ln()) / (ln2 * ln2)) as usize;
+        let m = ((-((n as f64) * p.ln()) / (ln2 * ln2)) as usize).max(1);
 
         Self::with_params_and_hash(m, k, buildhasher)
     }
